@@ -16,6 +16,7 @@ package hessian
 //@   measure [C16:fetchtype-terminates] grows mapsize(typMap) then shrinks T.height(typ)
 //@   let ut = R.unpackPtrType(typ)
 //@   loop 1 invariant [C16:fetch-fields] 0 <= i && mapsize(typMap) > old(mapsize(typMap)) && maphas(typMap, R.tName(typ)) && typ == R.unpackPtrType(entry(typ))
+//@   loop 1 invariant [C16:fetch-monotone-loop] forall k string :: old(maphas(typMap, k)) ==> maphas(typMap, k)
 //@   ensures [C16:fetch-grows] mapsize(typMap) >= old(mapsize(typMap))
 //@   ensures [C16:fetch-monotone] forall k string :: old(maphas(typMap, k)) ==> maphas(typMap, k)
 //@   ensures [C16:fetch-registers-struct] R.tKind(ut) == K.Struct ==> maphas(typMap, R.tName(ut))
